@@ -180,58 +180,74 @@ pub fn encode_to<W: Write>(
     })
 }
 
+/// When set (C19 only), `finish()` is called even after `drive` has failed - the way a caller's
+/// clean-up path would - and the first error is returned. A panic in that `finish()` propagates.
+pub static FINISH_AFTER_ERROR: std::sync::atomic::AtomicBool = std::sync::atomic::AtomicBool::new(false);
+
+fn driven<T>(r: io::Result<()>, finish: impl FnOnce() -> io::Result<T>) -> io::Result<T> {
+    match r {
+        Ok(()) => finish(),
+        Err(e) => {
+            if FINISH_AFTER_ERROR.load(std::sync::atomic::Ordering::Relaxed) {
+                let _ = finish();
+            }
+            Err(e)
+        }
+    }
+}
+
 /// Builds the writer of `spec` on `sink`, lets `drive` make the write / flush calls, finishes.
 /// `total` is the number of bytes `drive` is going to write (the sized .lzma header needs it).
 pub fn encode_with<W: Write>(spec: &Spec, sink: W, total: u64, drive: &mut dyn FnMut(&mut dyn Write) -> io::Result<()>) -> io::Result<W> {
     match &spec.c {
         Container::LzmaHeaderSized => {
             let mut w = LZMAWriter::new_use_header(sink, &spec.o, Some(total))?;
-            drive(&mut w)?;
-            w.finish()
+            let r = drive(&mut w);
+            driven(r, || w.finish())
         }
         Container::LzmaHeaderMarker => {
             let mut w = LZMAWriter::new_use_header(sink, &spec.o, None)?;
-            drive(&mut w)?;
-            w.finish()
+            let r = drive(&mut w);
+            driven(r, || w.finish())
         }
         Container::LzmaRawMarker | Container::LzmaRawMarkerSized => {
             let mut w = LZMAWriter::new_no_header(sink, &spec.o, true)?;
-            drive(&mut w)?;
-            w.finish()
+            let r = drive(&mut w);
+            driven(r, || w.finish())
         }
         Container::LzmaRawSized => {
             let mut w = LZMAWriter::new_no_header(sink, &spec.o, false)?;
-            drive(&mut w)?;
-            w.finish()
+            let r = drive(&mut w);
+            driven(r, || w.finish())
         }
         Container::Lzma2 { chunk } => {
             let opts = lzma2_options(&spec.o, chunk.and_then(NonZeroU64::new));
             let mut w = LZMA2Writer::new(sink, opts);
-            drive(&mut w)?;
-            w.finish()
+            let r = drive(&mut w);
+            driven(r, || w.finish())
         }
         Container::Xz { check, block, filters } => {
             let mut w = XZWriter::new(sink, xz_options(&spec.o, *check, *block, filters))?;
-            drive(&mut w)?;
-            w.finish()
+            let r = drive(&mut w);
+            driven(r, || w.finish())
         }
         Container::Lzip { member } => {
             let opts = lzip_options(&spec.o, member.and_then(NonZeroU64::new));
             let mut w = LZIPWriter::new(sink, opts);
-            drive(&mut w)?;
-            w.finish()
+            let r = drive(&mut w);
+            driven(r, || w.finish())
         }
         Container::Lzma2Mt { chunk, workers } => {
             let opts = lzma2_options(&spec.o, NonZeroU64::new(*chunk));
             let mut w = LZMA2WriterMT::new(sink, opts, *workers)?;
-            drive(&mut w)?;
-            w.finish()
+            let r = drive(&mut w);
+            driven(r, || w.finish())
         }
         Container::LzipMt { member, workers } => {
             let opts = lzip_options(&spec.o, NonZeroU64::new(*member));
             let mut w = LZIPWriterMT::new(sink, opts, *workers)?;
-            drive(&mut w)?;
-            w.finish()
+            let r = drive(&mut w);
+            driven(r, || w.finish())
         }
     }
 }
